@@ -40,6 +40,8 @@ for t in $targets; do
     crop) go test -c -vet=off -overlay="$OV" -o "$VERIF/bin/crop.test" ./cmd/mp4ff-crop ;;
     segmenter) go test -c -vet=off -overlay="$OV" -o "$VERIF/bin/segmenter.test" ./examples/segmenter ;;
     resegmenter) go test -c -vet=off -overlay="$OV" -o "$VERIF/bin/resegmenter.test" ./examples/resegmenter ;;
+    encrypt) go test -c -vet=off -overlay="$OV" -o "$VERIF/bin/encrypt.test" ./cmd/mp4ff-encrypt ;;
+    decrypt) go test -c -vet=off -overlay="$OV" -o "$VERIF/bin/decrypt.test" ./cmd/mp4ff-decrypt ;;
     combine) go test -c -vet=off -overlay="$OV" -o "$VERIF/bin/combine.test" ./examples/combine-segs ;;
     *) echo "unknown build target $t" >&2; exit 2 ;;
   esac
